@@ -37,6 +37,32 @@ is what `content-exclusion-patterns` is implemented and tested to mean -- Filter
                    S equal and every edit is content-only (file content / file mtime / link target) or hidden
                                                                 => must not re-execute
                    otherwise (chmod, directory mtime, compound edits that restore the structure) => not asserted
+
+Two further dimensions (the ENVIRONMENT of a case, `<root kind>/<file-system mode>`, `src/default` being the original space):
+
+  root kind    src    the tree root is a plain source directory
+               mkdir  the tree root is the output of a `mkdir` tool command of the description (the consumer still takes
+                      `<root>/` as its input).  The mkdir command's result stays valid while the directory exists
+                      (MkdirCommand::isResultValid), so the node record of the root never changes and only the listing
+                      comparison can notice new entries.  Two histories:
+                        - the directory and its contents exist before the first build (`mkdir -p` of an existing
+                          directory), then build, edit(s), build exactly as for a source root;
+                        - the case `populate`: build (the command creates the empty directory, the consumer runs), the
+                          driver fills the directory with the shape, build: the consumer must run again when anything
+                          visible appeared.
+  fs mode      default | device-agnostic | checksum-only: the `file-system:` key of the description's client section.
+               The reference only changes where C13's statement says the observation changes: in checksum-only mode a
+               file's mtime is not part of the comparison, so a case whose only difference is a file's mtime is NOT
+               asserted either way there (content changes of any size, additions, removals, renames, retypes, link
+               retargets are).  No edit of the alphabet replaces an inode without changing anything else, so
+               device-agnostic mode has the default reference.
+               In checksum-only mode the trees live on a file system whose directory size does not depend on the number
+               of entries (a disk file system under $VERIF_WORLDX2_DISK, default /var/tmp; tmpfs counts entries in
+               st_size), because there the directory's own record really carries nothing that moves when an entry is
+               added; everything else of the sandbox (database, description, outputs, exec.log) stays on /dev/shm.  If no
+               such file system is available the trees stay on tmpfs (counter max_checksum_only_trees_on_disk_fs = 0).
+  A violation found in another environment is re-run in `src/default` (and in the two environments that differ from it in
+  one component): its class gets the suffix `-mkdir-root` / `-<fs mode>` only for the components it really needs.
 """
 import fnmatch
 import os
@@ -53,20 +79,75 @@ PATTERN = {"none": None, "star": "*.x", "exact": "b"}
 MUST, MUSTNOT, SILENT = "must", "mustnot", "silent"
 
 
-def cfg_name(cfg):
-    return "%s/%s" % cfg
+ROOTKINDS = ("src", "mkdir")
+FSMODES = ("default", "device-agnostic", "checksum-only")
+BASE_ENV = ("src", "default")
+ENVS = [(r, f) for r in ROOTKINDS for f in FSMODES]
+NEW_ENVS = [e for e in ENVS if e != BASE_ENV]
+POPULATE = "populate"          # pseudo edit list: the judged build is the one after the driver filled a mkdir-produced root
+
+# Directory on a file system whose directories do not change size with their entry count (set by worldx2.py after
+# probing; None: not available).  Trees of checksum-only cases are placed there.
+DISK = None
+_disk_n = [0]
+
+
+def cfg_name(cfg, env=BASE_ENV):
+    return "%s/%s" % cfg + ("" if env == BASE_ENV else "/%s/%s" % env)
 
 
 def parse_cfg(s):
-    a, b = s.split("/")
-    if (a, b) not in CFGS:
+    """`<input>/<filter>[/<root kind>/<fs mode>]` -> (cfg, env)."""
+    f = s.split("/")
+    if len(f) not in (2, 4) or (f[0], f[1]) not in CFGS:
         raise HarnessError("bad configuration " + s)
-    return (a, b)
+    env = BASE_ENV if len(f) == 2 else (f[2], f[3])
+    if env not in ENVS:
+        raise HarnessError("bad environment in configuration " + s)
+    return (f[0], f[1]), env
+
+
+def env_suffix(env):
+    return ("-mkdir-root" if env[0] == "mkdir" else "") + ("" if env[1] == "default" else "-" + env[1])
+
+
+def env_text(env):
+    if env == BASE_ENV:
+        return ""
+    t = []
+    if env[0] == "mkdir":
+        t.append("root produced by a mkdir command")
+    if env[1] != "default":
+        t.append("client file-system: " + env[1])
+    return " [" + ", ".join(t) + "]"
+
+
+def new_tree_base(env):
+    """Where the trees of a case in ENV live: None = in the sandbox (tmpfs), else a fresh directory on DISK."""
+    if env[1] != "checksum-only" or DISK is None:
+        return None
+    _disk_n[0] += 1
+    d = os.path.join(DISK, "%d" % _disk_n[0])
+    if os.path.exists(d):
+        shutil.rmtree(d)
+    os.makedirs(d)
+    return d
+
+
+def drop_tree_base(base):
+    if base is not None:
+        shutil.rmtree(base, ignore_errors=True)
+
+
+def root_path(base, name):
+    """Tree root as named in the description: relative to the sandbox, or absolute when the trees are on DISK (every
+    sandbox primitive joins paths with os.path.join, which keeps an absolute second operand as it is)."""
+    return name if base is None else os.path.join(base, name)
 
 
 # ---------------------------------------------------------------- description
-def make_desc(roots_cfgs):
-    """roots_cfgs: list of (root dir name, cfg, tag)."""
+def make_desc(roots_cfgs, env=BASE_ENV):
+    """roots_cfgs: list of (root dir path, cfg, tag)."""
     cmds, nodes, outs = [], {}, []
     for root, cfg, tag in roots_cfgs:
         node = root + "/"
@@ -78,9 +159,11 @@ def make_desc(roots_cfgs):
         if attrs:
             nodes[node] = attrs
         out = "o-" + tag
+        if env[0] == "mkdir":
+            cmds.append(Cmd("mk-" + tag, [], [root], tool="mkdir"))
         cmds.append(Cmd(tag, [node], [out], reads=[]))
         outs.append(out)
-    return Desc("c12", cmds, {"all": outs}, nodes=nodes)
+    return Desc("c12", cmds, {"all": outs}, nodes=nodes, fs=None if env[1] == "default" else env[1])
 
 
 def render(desc):
@@ -99,19 +182,25 @@ def link_target(path, retargets=0):
 class Trees:
     """Applies edits to one or several identical trees in a sandbox and can undo them exactly."""
 
-    def __init__(self, sb, roots):
+    def __init__(self, sb, roots, base=None):
+        """BASE: directory holding the roots, the link targets and the stash (None: the sandbox root); the stash must
+        be on the file system of the trees (entries are parked by rename)."""
         self.sb = sb
         self.roots = list(roots)
         self.journal = []
         self.stash_n = 0
-        sb.write("ext", "E")
-        sb.write("ex2", "F")
-        os.mkdir(sb.p("stash"))
+        self.stash = root_path(base, "stash")
+        sb.write(root_path(base, "ext"), "E")
+        sb.write(root_path(base, "ex2"), "F")
+        os.mkdir(sb.p(self.stash))
 
     # -- creation
-    def populate(self, shape):
+    def populate(self, shape, make_roots=True):
         for root in self.roots:
-            os.mkdir(self.sb.p(root))
+            if make_roots:
+                os.mkdir(self.sb.p(root))
+            elif not os.path.isdir(self.sb.p(root)):
+                raise HarnessError("tree root %s was not produced by the build" % root)
             self._populate(root, shape, "")
             self.sb.stamp(root)
 
@@ -134,7 +223,7 @@ class Trees:
     # -- primitives (each on one root; inverse actions are journalled)
     def _park(self, full):
         self.stash_n += 1
-        dst = "stash/%d" % self.stash_n
+        dst = "%s/%d" % (self.stash, self.stash_n)
         os.rename(self.sb.p(full), self.sb.p(dst))
         self.journal.append(("unpark", dst, full))
 
@@ -321,6 +410,16 @@ def strip_mode(V):
     return {p: (x[:3] + x[4:] if x[0] == "f" else x) for p, x in V.items()}
 
 
+def strip_mode_mtime(V):
+    return {p: (x[:2] + x[4:] if x[0] == "f" else x) for p, x in V.items()}
+
+
+def compared(V, env):
+    """The part of the visible listing whose change the statements require to be noticed in ENV's file-system mode:
+    never the permission bits; not the files' mtimes in checksum-only mode (C13)."""
+    return strip_mode_mtime(V) if env[1] == "checksum-only" else strip_mode(V)
+
+
 def hidden(e, pattern):
     """The edit names only paths with a component matching the exclusion pattern."""
     if pattern is None:
@@ -331,8 +430,17 @@ def hidden(e, pattern):
     return True
 
 
-def expectation(cfg, v0, v1, edits, models):
+def expectation_populate(cfg, v0, v1, env):
+    """The build after the driver filled a root that the description's mkdir command had created empty."""
+    if cfg[0] == "tree":
+        return MUST if compared(v0.V, env) != compared(v1.V, env) else SILENT
+    return MUST if v0.S != v1.S else SILENT
+
+
+def expectation(cfg, v0, v1, edits, models, env=BASE_ENV):
     """models[i] = model before edits[i]."""
+    if edits == POPULATE:
+        return expectation_populate(cfg, v0, v1, env)
     pattern = PATTERN[cfg[1]]
     all_hidden = all(hidden(e, pattern) for e in edits)
     if any(tm.is_quiet(e) and not hidden(e, pattern) for e in edits):
@@ -340,11 +448,13 @@ def expectation(cfg, v0, v1, edits, models):
         # "with a fresh mtime"; the quiet variants exist to isolate hidden names
         return SILENT
     if cfg[0] == "tree":
-        if strip_mode(v0.V) != strip_mode(v1.V):
+        if compared(v0.V, env) != compared(v1.V, env):
             return MUST
         if v0.V != v1.V:
             # only permission bits differ: llbuild's notion of "the file changed" (FileInfo::operator==: device, inode,
-            # size, mtime) deliberately leaves the mode out (DESIGN.md section 7, C13), so chmod is not asserted
+            # size, mtime) deliberately leaves the mode out (DESIGN.md section 7, C13), so chmod is not asserted;
+            # checksum-only mode: only permission bits and/or file mtimes differ, and "a pure timestamp change is
+            # not [detected]" there (C13), so neither re-execution nor its absence is demanded
             return SILENT
         if v0.DM == v1.DM and (v0.R == v1.R or all_hidden):
             return MUSTNOT
@@ -394,6 +504,8 @@ def violation_class(cfg, edits, models, expect, v0=None, v1=None):
     inp, filt = cfg
     pattern = PATTERN[filt]
     tagf = "" if filt == "none" else "-" + filt
+    if edits == POPULATE:
+        return "C12.%s%s-missed-populate-of-produced-root" % (inp, tagf)
     if not edits:
         return "C12.null-build-reran-%s%s" % (inp, tagf)
     names = [tm.kind_name(m, e) for e, m in zip(edits, models)]
@@ -419,6 +531,8 @@ def violation_class(cfg, edits, models, expect, v0=None, v1=None):
 def models_for(shape, edits):
     m = tm.to_model(shape)
     out = []
+    if edits == POPULATE:
+        return out
     for e in edits:
         out.append(tm.clone(m))
         tm.apply_model(m, e)
@@ -426,29 +540,82 @@ def models_for(shape, edits):
 
 
 # ---------------------------------------------------------------- isolated path
-def run_isolated(shape, edits, cfg, verbose=False):
-    """Returns dict(expect, reran, rc1, rc2, out)."""
-    sb = Sandbox()
+def edits_text(edits):
+    return POPULATE if edits == POPULATE else tm.edits_str(edits)
+
+
+class Isolated:
+    """Fresh sandbox, one tree, one consuming command, brought to the state after the first build: populate, build
+    (with a mkdir root the description's mkdir command finds the directory in place).  MADE (mkdir roots only): build
+    (the mkdir command makes the root), populate, build -- the outcome of that build is kept in .pop."""
+
+    def __init__(self, shape, cfg, env, made=False):
+        self.sb = sb = Sandbox()
+        self.base = None
+        self.builds = 0
+        self.pop = None
+        try:
+            self.base = new_tree_base(env)
+            self.root = root_path(self.base, "T")
+            self.trees = Trees(sb, [self.root], self.base)
+            self.pattern = PATTERN[cfg[1]]
+            sb.write("build.llbuild", render(make_desc([(self.root, cfg, "c")], env)))
+            what = "%s %s" % (tm.shape_str(shape), cfg_name(cfg, env))
+            if made:
+                if env[0] != "mkdir":
+                    raise HarnessError("C12: `populate` needs a mkdir root")
+                rc0, out0, ran0 = sb.build("all", "serial")
+                self.builds += 1
+                if rc0 != 0 or ran0 != ["c"] or not os.path.isdir(sb.p(self.root)):
+                    raise HarnessError("C12 isolated: build that makes the root of %s: rc=%d ran=%r\n%s" % (what, rc0, ran0, out0))
+                ve = view(sb, self.root, self.pattern)
+                self.trees.populate(shape, make_roots=False)
+                vp = view(sb, self.root, self.pattern)
+                rc1, out1, ran1 = sb.build("all", "serial")
+                self.builds += 1
+                self.pop = {"expect": expectation_populate(cfg, ve, vp, env), "reran": "c" in ran1, "rc2": rc1, "out": out1,
+                            "v0": ve, "v1": vp, "ran": ran1}
+            else:
+                self.trees.populate(shape)
+                rc1, out1, ran1 = sb.build("all", "serial")
+                self.builds += 1
+                if rc1 != 0 or ran1 != ["c"]:
+                    raise HarnessError("C12 isolated: first build of %s: rc=%d ran=%r\n%s" % (what, rc1, ran1, out1))
+        except BaseException:
+            self.close()
+            raise
+
+    def close(self):
+        self.sb.destroy()
+        drop_tree_base(self.base)
+
+
+def run_isolated(shape, edits, cfg, env=BASE_ENV, verbose=False):
+    """Returns dict(expect, reran, rc2, out, builds, v0, v1)."""
+    iso = Isolated(shape, cfg, env, made=(edits == POPULATE))
     try:
-        trees = Trees(sb, ["T"])
-        trees.populate(shape)
-        desc = make_desc([("T", cfg, "c")])
-        sb.write("build.llbuild", render(desc))
-        rc1, out1, ran1 = sb.build("all", "serial")
-        if rc1 != 0 or ran1 != ["c"]:
-            raise HarnessError("C12 isolated: first build of %s %s: rc=%d ran=%r\n%s" % (
-                tm.shape_str(shape), cfg_name(cfg), rc1, ran1, out1))
-        pattern = PATTERN[cfg[1]]
-        v0 = view(sb, "T", pattern)
+        sb, pattern = iso.sb, iso.pattern
+        if edits == POPULATE:
+            r = dict(iso.pop)
+            r["builds"] = iso.builds
+            if verbose:
+                print("shape   %s" % tm.shape_str(shape))
+                print("config  %s (pattern %s)%s" % (cfg_name(cfg, env), pattern, env_text(env)))
+                print("history build (mkdir makes the root); the driver populates it; build")
+                print("visible listing after populating: %r" % (sorted(r["v1"].V.items()),))
+                print("reference: %s re-execute; second build rc=%d executed %r" % (r["expect"], r["rc2"], r["ran"]))
+                print(r["out"])
+            return r
+        v0 = view(sb, iso.root, pattern)
         for e in edits:
-            trees.apply(e)
-        trees.forget()
-        v1 = view(sb, "T", pattern)
+            iso.trees.apply(e)
+        iso.trees.forget()
+        v1 = view(sb, iso.root, pattern)
         rc2, out2, ran2 = sb.build("all", "serial")
-        exp = expectation(cfg, v0, v1, edits, models_for(shape, edits))
+        exp = expectation(cfg, v0, v1, edits, models_for(shape, edits), env)
         if verbose:
             print("shape   %s" % tm.shape_str(shape))
-            print("config  %s (pattern %s)" % (cfg_name(cfg), pattern))
+            print("config  %s (pattern %s)%s" % (cfg_name(cfg, env), pattern, env_text(env)))
             print("edits   %s" % tm.edits_str(edits))
             print("visible listing before: %r" % (sorted(v0.V.items()),))
             print("visible listing after : %r" % (sorted(v1.V.items()),))
@@ -456,37 +623,68 @@ def run_isolated(shape, edits, cfg, verbose=False):
                 sorted(v0.DM.items()), sorted(v1.DM.items()), v0.R != v1.R))
             print("reference: %s re-execute; second build rc=%d executed %r" % (exp, rc2, ran2))
             print(out2)
-        return {"expect": exp, "reran": "c" in ran2, "rc2": rc2, "out": out2, "builds": 2, "v0": v0, "v1": v1}
+        return {"expect": exp, "reran": "c" in ran2, "rc2": rc2, "out": out2, "builds": iso.builds + 1, "v0": v0, "v1": v1}
     finally:
-        sb.destroy()
+        iso.close()
 
 
 # ---------------------------------------------------------------- batch path
 class Batch:
-    def __init__(self, shape, res):
+    def __init__(self, shape, res, env=BASE_ENV, made=False):
+        """MADE (mkdir roots): only the `populate` history is run: build (mkdir makes the six roots), populate, build;
+        its outcome is in .populate_results and the batch takes no edits."""
         self.shape = shape
         self.res = res
+        self.env = env
+        self.made = made
         self.sb = Sandbox()
-        self.roots = ["T%d" % (i + 1) for i in range(len(CFGS))]
+        self.base = None
+        self.populate_results = None
+        try:
+            self._setup()
+        except BaseException:
+            self.close()
+            raise
+
+    def _setup(self):
+        shape, res, env, sb = self.shape, self.res, self.env, self.sb
+        self.base = new_tree_base(env)
+        self.roots = [root_path(self.base, "T%d" % (i + 1)) for i in range(len(CFGS))]
         self.tags = ["c%d" % (i + 1) for i in range(len(CFGS))]
-        self.trees = Trees(self.sb, self.roots)
+        self.trees = Trees(sb, self.roots, self.base)
+        desc = make_desc([(r, c, t) for r, c, t in zip(self.roots, CFGS, self.tags)], env)
+        sb.write("build.llbuild", render(desc))
+        what = "%s%s" % (tm.shape_str(shape), env_text(env))
+        if self.made:
+            rc, out, ran = sb.build("all", "serial")
+            res.count("builds")
+            if rc != 0 or sorted(ran) != sorted(self.tags) or not all(os.path.isdir(sb.p(r)) for r in self.roots):
+                raise HarnessError("C12 batch: build that makes the roots of %s: rc=%d ran=%r\n%s" % (what, rc, ran, out))
+            views_e = [view(sb, r, PATTERN[c[1]]) for r, c in zip(self.roots, CFGS)]
+            self.trees.populate(shape, make_roots=False)
+            views_p = [view(sb, r, PATTERN[c[1]]) for r, c in zip(self.roots, CFGS)]
+            rc, out, ran = sb.build("all", "serial")
+            res.count("builds")
+            self.populate_rc, self.populate_out = rc, out
+            self.populate_results = [(cfg, expectation_populate(cfg, views_e[i], views_p[i], env), self.tags[i] in ran,
+                                      views_e[i], views_p[i]) for i, cfg in enumerate(CFGS)]
+            return
         self.trees.populate(shape)
-        desc = make_desc([(r, c, t) for r, c, t in zip(self.roots, CFGS, self.tags)])
-        self.sb.write("build.llbuild", render(desc))
-        rc, out, ran = self.sb.build("all", "serial")
+        rc, out, ran = sb.build("all", "serial")
         res.count("builds")
         if rc != 0 or sorted(ran) != sorted(self.tags):
-            raise HarnessError("C12 batch: first build of %s: rc=%d ran=%r\n%s" % (tm.shape_str(shape), rc, ran, out))
-        leftovers = [f for f in os.listdir(self.sb.root) if f.startswith("build.db") and f != "build.db"]
+            raise HarnessError("C12 batch: first build of %s: rc=%d ran=%r\n%s" % (what, rc, ran, out))
+        leftovers = [f for f in os.listdir(sb.root) if f.startswith("build.db") and f != "build.db"]
         if leftovers:
             raise HarnessError("C12 batch: database side files after a finished build: %r" % leftovers)
-        shutil.copyfile(self.sb.p("build.db"), self.sb.p("snap.db"))
+        shutil.copyfile(sb.p("build.db"), sb.p("snap.db"))
         self.outs = ["o-" + t for t in self.tags]
-        self.fp0 = fingerprint(self.sb, self.roots + self.outs)
-        self.views0 = [view(self.sb, r, PATTERN[c[1]]) for r, c in zip(self.roots, CFGS)]
+        self.fp0 = fingerprint(sb, self.roots + self.outs)
+        self.views0 = [view(sb, r, PATTERN[c[1]]) for r, c in zip(self.roots, CFGS)]
 
     def close(self):
         self.sb.destroy()
+        drop_tree_base(self.base)
 
     def run(self, edits):
         """Apply EDITS to all six trees, run the second build, undo.  Returns [(cfg, expect, reran)], rc, out."""
@@ -501,10 +699,9 @@ class Batch:
         self._restore(tm.edits_str(edits))
         results = []
         for i, cfg in enumerate(CFGS):
-            exp = expectation(cfg, self.views0[i], views1[i], edits, models)
+            exp = expectation(cfg, self.views0[i], views1[i], edits, models, self.env)
             results.append((cfg, exp, self.tags[i] in ran, self.views0[i], views1[i]))
         return results, rc, out, models
-
 
     def _restore(self, what):
         """Undo: structure and contents first, then every mtime (trees and the outputs the builds rewrote); verify."""
@@ -522,7 +719,7 @@ class Batch:
             diff = [k for k in set(fp) | set(self.fp0) if fp.get(k) != self.fp0.get(k)]
             raise HarnessError("C12 batch: undo of %s on %s did not restore %r" % (
                 what, tm.shape_str(self.shape), sorted(diff)[:4]))
-        for f in os.listdir(sb.p("stash")):
+        for f in os.listdir(sb.p(self.trees.stash)):
             raise HarnessError("C12 batch: stash not empty after undo: " + f)
 
     def run_chain(self, e1, e2):
@@ -542,21 +739,69 @@ class Batch:
         self._restore(tm.edit_str(e1) + " / " + tm.edit_str(e2))
         results = []
         for i, cfg in enumerate(CFGS):
-            exp2 = expectation(cfg, self.views0[i], views1[i], [e1], [m0])
-            exp3 = expectation(cfg, views1[i], views2[i], [e2], [m1])
+            exp2 = expectation(cfg, self.views0[i], views1[i], [e1], [m0], self.env)
+            exp3 = expectation(cfg, views1[i], views2[i], [e2], [m1], self.env)
             results.append((cfg, exp2, self.tags[i] in ran2, exp3, self.tags[i] in ran3, views1[i], views2[i]))
         return results, (rc2, rc3), out2 + out3, m0, m1
 
 
-def judge_and_record(res, shape, edits, cfg, exp, reran, models, v0, v1, confirm=True):
+# ---------------------------------------------------------------- which environment does a violation need?
+_narrow_memo = {}
+
+
+def needed_env(res, env, key, signature, runner, populate=False):
+    """ENV narrowed to the components without which the disagreement SIGNATURE does not show: the same case is re-run
+    (isolated) in src/default and, if both components differ from it, in the two environments in between.
+    runner(env2) -> signature there."""
+    if env == BASE_ENV:
+        return env
+    if populate:
+        cands = [("mkdir", "default")] if env[1] != "default" else []
+    else:
+        cands = [BASE_ENV]
+        if env[0] != BASE_ENV[0] and env[1] != BASE_ENV[1]:
+            cands += [(env[0], "default"), ("src", env[1])]
+    for e2 in cands:
+        k = (key, e2)
+        if k not in _narrow_memo:
+            _narrow_memo[k] = runner(e2)
+            res.count("violations_rerun_in_simpler_environment")
+        if _narrow_memo[k] == signature:
+            return e2
+    return env
+
+
+def add_position(model_before, e):
+    """first / between / last / only: where the added name sorts among the names already in its directory."""
+    dp, name = tm.split(e[1])
+    sib = sorted(tm.lookup_dir(model_before, dp))
+    if not sib:
+        return "only"
+    if name < sib[0]:
+        return "first"
+    if name > sib[-1]:
+        return "last"
+    return "between"
+
+
+def judge_and_record(res, shape, edits, cfg, exp, reran, models, v0, v1, env=BASE_ENV, confirm=True):
     """Counts the case; on a disagreement confirms it isolated and records the violation."""
     res.count("evaluations")
+    res.count("evaluations_%s_root_%s" % env)
     res.count("observed_rerun" if reran else "observed_no_rerun")
+    populate = edits == POPULATE
+    if populate:
+        res.count("populate_evaluations")
     if exp == SILENT:
         res.count("not_asserted")
         res.count("not_asserted_reran" if reran else "not_asserted_not_reran")
+        if populate:
+            return
         if len(edits) == 1 and edits[0][0] == "ch":
             res.count("not_asserted_chmod_%s_%s" % (cfg[0], "reran" if reran else "not_reran"))
+        if env[1] == "checksum-only" and len(edits) == 1 and edits[0][0] == "mt" and tm.is_content_only(models[0], edits[0]) \
+                and cfg[0] == "tree" and not hidden(edits[0], PATTERN[cfg[1]]):
+            res.count("not_asserted_file_mtime_only_in_checksum_only_mode_" + ("reran" if reran else "not_reran"))
         if cfg[0] == "tree" and cfg[1] != "none" and v0.V == v1.V and edits and \
                 all(hidden(e, PATTERN[cfg[1]]) for e in edits):
             # only excluded names were edited, but a visible sub-directory's own metadata changed with them
@@ -565,19 +810,35 @@ def judge_and_record(res, shape, edits, cfg, exp, reran, models, v0, v1, confirm
     res.count("expected_rerun" if exp == MUST else "expected_no_rerun")
     if edits:
         res.count("distinct_nontrivial")
+    if exp == MUST and not populate and len(edits) == 1 and tm.base_op(edits[0]) == "add" and cfg == ("tree", "none"):
+        res.count("asserted_additions_sorting_%s_at_depth%d" % (add_position(models[0], edits[0]), tm.depth(edits[0][1])))
     if (exp == MUST) == reran:
         return
-    spec = "C12|%s|%s|%s" % (tm.shape_str(shape), cfg_name(cfg), tm.edits_str(edits))
+    spec = "C12|%s|%s|%s" % (tm.shape_str(shape), cfg_name(cfg, env), edits_text(edits))
     cls = violation_class(cfg, edits, models, exp, v0, v1)
+
+    def runner(env2):
+        iso = run_isolated(shape, edits, cfg, env2)
+        res.count("builds", iso["builds"])
+        return (iso["expect"], iso["reran"])
+
+    cls += env_suffix(needed_env(res, env, (tm.shape_str(shape), edits_text(edits), cfg), (exp, reran), runner, populate))
     if confirm and res.per_class.get(cls, 0) < res.max_per_class:
-        iso = run_isolated(shape, edits, cfg)
+        iso = run_isolated(shape, edits, cfg, env)
         res.count("builds", iso["builds"])
         res.count("violations_confirmed_isolated")
         if iso["expect"] != exp or iso["reran"] != reran:
             raise HarnessError("C12: batch and isolated runs disagree on %s: batch expect=%s reran=%s, isolated "
                                "expect=%s reran=%s" % (spec, exp, reran, iso["expect"], iso["reran"]))
-    res.violate(cls, "tree {%s} as %s input%s, edit %s: reference says the consumer %s re-execute, it %s" % (
-        tm.shape_str(shape), cfg[0], "" if cfg[1] == "none" else " with content-exclusion-patterns [%s]" % PATTERN[cfg[1]],
+    filt = "" if cfg[1] == "none" else " with content-exclusion-patterns [%s]" % PATTERN[cfg[1]]
+    if populate:
+        res.violate(cls, "tree root produced by a mkdir command%s, consumed as %s input%s; after the first build the driver "
+                    "fills it with {%s}: reference says the consumer %s re-execute at the next build, it %s" % (
+                        env_text((BASE_ENV[0], env[1])), cfg[0], filt, tm.shape_str(shape),
+                        "must" if exp == MUST else "must not", "did" if reran else "did not"), spec)
+        return
+    res.violate(cls, "tree {%s} as %s input%s%s, edit %s: reference says the consumer %s re-execute, it %s" % (
+        tm.shape_str(shape), cfg[0], filt, env_text(env),
         tm.edits_str(edits), "must" if exp == MUST else "must not", "did" if reran else "did not"), spec)
 
 
@@ -586,33 +847,26 @@ def to_shape(m):
     return tuple((n, m[n]["k"], to_shape(m[n]["c"]) if m[n]["k"] == "d" else ()) for n in sorted(m))
 
 
-def run_isolated_chain(shape, e1, e2, cfg, verbose=False):
-    sb = Sandbox()
+def run_isolated_chain(shape, e1, e2, cfg, env=BASE_ENV, verbose=False):
+    iso = Isolated(shape, cfg, env)
     try:
-        trees = Trees(sb, ["T"])
-        trees.populate(shape)
-        sb.write("build.llbuild", render(make_desc([("T", cfg, "c")])))
-        rc1, out1, ran1 = sb.build("all", "serial")
-        if rc1 != 0 or ran1 != ["c"]:
-            raise HarnessError("C12 isolated chain: first build of %s %s: rc=%d ran=%r\n%s" % (
-                tm.shape_str(shape), cfg_name(cfg), rc1, ran1, out1))
-        pattern = PATTERN[cfg[1]]
+        sb, pattern, trees, root = iso.sb, iso.pattern, iso.trees, iso.root
         m0 = tm.to_model(shape)
         m1 = tm.clone(m0)
         tm.apply_model(m1, e1)
-        v0 = view(sb, "T", pattern)
+        v0 = view(sb, root, pattern)
         trees.apply(e1)
-        v1 = view(sb, "T", pattern)
+        v1 = view(sb, root, pattern)
         rc2, out2, ran2 = sb.build("all", "serial")
         trees.apply(e2)
         trees.forget()
-        v2 = view(sb, "T", pattern)
+        v2 = view(sb, root, pattern)
         rc3, out3, ran3 = sb.build("all", "serial")
-        exp2 = expectation(cfg, v0, v1, [e1], [m0])
-        exp3 = expectation(cfg, v1, v2, [e2], [m1])
+        exp2 = expectation(cfg, v0, v1, [e1], [m0], env)
+        exp3 = expectation(cfg, v1, v2, [e2], [m1], env)
         if verbose:
             print("shape   %s" % tm.shape_str(shape))
-            print("config  %s (pattern %s)" % (cfg_name(cfg), pattern))
+            print("config  %s (pattern %s)%s" % (cfg_name(cfg, env), pattern, env_text(env)))
             print("history build; %s; build; %s; build" % (tm.edit_str(e1), tm.edit_str(e2)))
             print("second build: reference %s re-execute; rc=%d executed %r" % (exp2, rc2, ran2))
             print("visible listing before the last edit: %r" % (sorted(v1.V.items()),))
@@ -620,28 +874,29 @@ def run_isolated_chain(shape, e1, e2, cfg, verbose=False):
             print("third build: reference %s re-execute; rc=%d executed %r" % (exp3, rc3, ran3))
             print(out3)
         return {"exp2": exp2, "reran2": "c" in ran2, "exp3": exp3, "reran3": "c" in ran3, "rc": (rc2, rc3),
-                "builds": 3, "v1": v1, "v2": v2, "m0": m0, "m1": m1}
+                "builds": iso.builds + 2, "v1": v1, "v2": v2, "m0": m0, "m1": m1}
     finally:
-        sb.destroy()
+        iso.close()
 
 
 _alone_memo = {}
 
 
-def violates_alone(res, m1, e2, cfg, exp3, reran3):
+def violates_alone(res, m1, e2, cfg, exp3, reran3, env=BASE_ENV):
     """Does the last edit of a chain, applied alone to a FRESH tree shaped like the intermediate one, give the same
     disagreement?  Then the chain adds nothing and the finding belongs to the single edit's class."""
     sh1 = to_shape(m1)
-    key = (tm.shape_str(sh1), e2, cfg)
+    key = (tm.shape_str(sh1), e2, cfg, env)
     if key not in _alone_memo:
-        iso = run_isolated(sh1, [e2], cfg)
+        iso = run_isolated(sh1, [e2], cfg, env)
         res.count("builds", iso["builds"])
         _alone_memo[key] = (iso["expect"], iso["reran"])
     return _alone_memo[key] == (exp3, reran3)
 
 
-def judge_chain(res, shape, e1, e2, cfg, exp2, reran2, exp3, reran3, m0, m1, v1, v2, confirm=True):
+def judge_chain(res, shape, e1, e2, cfg, exp2, reran2, exp3, reran3, m0, m1, v1, v2, env=BASE_ENV, confirm=True):
     res.count("evaluations")
+    res.count("evaluations_%s_root_%s" % env)
     res.count("chain_evaluations")
     res.count("observed_rerun" if reran3 else "observed_no_rerun")
     settled = exp2 != SILENT and (exp2 == MUST) == reran2
@@ -649,11 +904,16 @@ def judge_chain(res, shape, e1, e2, cfg, exp2, reran2, exp3, reran3, m0, m1, v1,
     if unobservable_first:
         res.count("not_asserted_chain_after_quiet_edit_of_visible_name_" + (
             "conforming" if exp3 == SILENT or (exp3 == MUST) == reran3 else "deviating"))
-    if exp3 == SILENT or (exp3 == MUSTNOT and not settled) or unobservable_first:
+    missed_second = exp2 == MUST and not reran2
+    if missed_second and env != BASE_ENV:
+        res.count("not_asserted_chain_after_missed_second_build")
+    if exp3 == SILENT or (exp3 == MUSTNOT and not settled) or unobservable_first or (missed_second and env != BASE_ENV):
         # (a re-execution at the third build is only blamed on the last edit if the second build did what the
         # reference demanded of it; and nothing is demanded after a first edit that was deliberately made
         # unobservable -- a visible entry changed while its directory's mtime was put back -- because the tool
-        # may legitimately still hold the old listing of that directory)
+        # may legitimately still hold the old listing of that directory; in the added environments nothing is demanded
+        # either after a second build that missed its own edit -- that miss is reported by the single-edit case, and
+        # everything after it merely repeats it)
         res.count("not_asserted")
         res.count("not_asserted_reran" if reran3 else "not_asserted_not_reran")
         return
@@ -661,24 +921,33 @@ def judge_chain(res, shape, e1, e2, cfg, exp2, reran2, exp3, reran3, m0, m1, v1,
     res.count("distinct_nontrivial")
     if (exp3 == MUST) == reran3:
         return
-    spec = "C12|%s|%s|%s|%s" % (tm.shape_str(shape), cfg_name(cfg), tm.edit_str(e1), tm.edit_str(e2))
+    spec = "C12|%s|%s|%s|%s" % (tm.shape_str(shape), cfg_name(cfg, env), tm.edit_str(e1), tm.edit_str(e2))
     cls = violation_class(cfg, [e2], [m1], exp3, v1, v2)
-    if not violates_alone(res, m1, e2, cfg, exp3, reran3):
+    if not violates_alone(res, m1, e2, cfg, exp3, reran3, env):
         cls += "-after-rebuild"
+
+    def runner(env2):
+        iso = run_isolated_chain(shape, e1, e2, cfg, env2)
+        res.count("builds", iso["builds"])
+        return (iso["exp2"], iso["reran2"], iso["exp3"], iso["reran3"])
+
+    cls += env_suffix(needed_env(res, env, (tm.shape_str(shape), tm.edit_str(e1) + "|" + tm.edit_str(e2), cfg),
+                                 (exp2, reran2, exp3, reran3), runner))
     if confirm and res.per_class.get(cls, 0) < res.max_per_class:
-        iso = run_isolated_chain(shape, e1, e2, cfg)
+        iso = run_isolated_chain(shape, e1, e2, cfg, env)
         res.count("builds", iso["builds"])
         res.count("violations_confirmed_isolated")
         if (iso["exp2"], iso["reran2"], iso["exp3"], iso["reran3"]) != (exp2, reran2, exp3, reran3):
             raise HarnessError("C12: batch and isolated chains disagree on %s" % spec)
-    res.violate(cls, "tree {%s} as %s input%s, history build; %s; build; %s; build: reference says that at the last build the "
+    res.violate(cls, "tree {%s} as %s input%s%s, history build; %s; build; %s; build: reference says that at the last build the "
                 "consumer %s re-execute, it %s" % (
                     tm.shape_str(shape), cfg[0],
-                    "" if cfg[1] == "none" else " with content-exclusion-patterns [%s]" % PATTERN[cfg[1]],
+                    "" if cfg[1] == "none" else " with content-exclusion-patterns [%s]" % PATTERN[cfg[1]], env_text(env),
                     tm.edit_str(e1), tm.edit_str(e2), "must" if exp3 == MUST else "must not",
                     "did" if reran3 else "did not"), spec)
 
 
+# ---------------------------------------------------------------- enumeration
 def chain_sequences(shape):
     """Every (e1, e2): e2 is enumerated on the tree as edited by e1; a build runs in between, so nothing commutes."""
     m0 = tm.to_model(shape)
@@ -689,55 +958,125 @@ def chain_sequences(shape):
             yield e1, e2
 
 
-def edit_sequences(shape, pairs, stride=1, phase=0):
-    """[] (the null control), every single edit, and (if PAIRS) every pair up to commutation of unrelated edits;
-    with STRIDE > 1 only the pairs whose running index is PHASE modulo STRIDE."""
-    m0 = tm.to_model(shape)
+def single_sequences(shape):
+    """[] (the null control) and every single edit."""
     yield []
-    singles = tm.edits(m0)
-    for e in singles:
+    for e in tm.edits(tm.to_model(shape)):
         yield [e]
-    if pairs:
-        n = 0
-        for e1 in singles:
-            m1 = tm.clone(m0)
-            tm.apply_model(m1, e1)
-            for e2 in tm.edits(m1):
-                if not tm.pair_is_redundant(m0, e1, e2):
-                    n += 1
-                    if n % stride == phase % stride:
-                        yield [e1, e2]
+
+
+def pair_sequences(shape, stride=1, phase=0):
+    """Every pair of edits up to commutation of unrelated edits; with STRIDE > 1 only the pairs whose running index is
+    PHASE modulo STRIDE."""
+    m0 = tm.to_model(shape)
+    singles = tm.edits(m0)
+    n = 0
+    for e1 in singles:
+        m1 = tm.clone(m0)
+        tm.apply_model(m1, e1)
+        for e2 in tm.edits(m1):
+            if not tm.pair_is_redundant(m0, e1, e2):
+                n += 1
+                if n % stride == phase % stride:
+                    yield [e1, e2]
+
+
+def ordered_pairs_upper_bound(shape):
+    """Number of (e1, e2) sequences before removing mirror images: cheap, and a deterministic function of the shape;
+    used only to cut a shape's pairs / chains into work items of similar size."""
+    m0 = tm.to_model(shape)
+    n = 0
+    for e1 in tm.edits(m0):
+        m1 = tm.clone(m0)
+        tm.apply_model(m1, e1)
+        n += len(tm.edits(m1))
+    return n
 
 
 def plan(tier):
-    """shapes that get the null control and all single edits; largest shape size that gets ALL pairs; the next size gets
-    the pairs of one residue class modulo `stride` (the seed picks the class)."""
-    shapes = tm.all_shapes()
+    """Per environment class: shapes (by entry count) that get the null control and all single edits; largest size that
+    gets ALL pairs; the next size gets the pairs of one residue class modulo `stride` (the seed picks the class);
+    largest size that gets all chained histories.  -1 = none."""
     if tier == "quick":
-        return {"shapes": [s for s in shapes if tm.size(s) <= 3], "single_size": 3, "pair_full": 1, "pair_strided": 2, "stride": 8,
-                "chain": 1}
-    return {"shapes": shapes, "single_size": 6, "pair_full": 2, "pair_strided": 3, "stride": 3, "chain": 2}
+        return {"base": {"single_size": 3, "pair_full": 1, "pair_strided": 2, "stride": 8, "chain": 1},
+                "new": {"single_size": 2, "pair_full": -1, "pair_strided": -1, "stride": 1, "chain": 0}}
+    return {"base": {"single_size": 6, "pair_full": 2, "pair_strided": 3, "stride": 3, "chain": 2},
+            "new": {"single_size": 4, "pair_full": 1, "pair_strided": 1, "stride": 1, "chain": 1}}
+
+
+ITEM_HISTORIES = 150     # a work item holds about this many histories (pairs) or half as many (chains: two builds each)
+
+
+def work_items(tier):
+    """[(env, shape index, segment, k, m)]: segment S = null control + all single edits (+ the populate case for mkdir
+    roots), P = slice k of m of the shape's pairs, C = slice k of m of its chained histories.  Item i is run by shard
+    (i + seed) % nshards."""
+    pl = plan(tier)
+    shapes = tm.all_shapes()
+    items = []
+    for env in [BASE_ENV] + NEW_ENVS:
+        b = pl["base" if env == BASE_ENV else "new"]
+        for idx, shape in enumerate(shapes):
+            sz = tm.size(shape)
+            if sz > max(b["single_size"], b["pair_strided"], b["chain"]):
+                continue
+            ub = ordered_pairs_upper_bound(shape) if sz <= max(b["pair_strided"], b["chain"]) else 0
+            if sz <= b["single_size"]:
+                items.append((env, idx, "S", 0, 1))
+            if sz <= b["pair_strided"]:
+                stride = b["stride"] if sz > b["pair_full"] else 1
+                m = max(1, -(-ub // (stride * ITEM_HISTORIES)))
+                items += [(env, idx, "P", k, m) for k in range(m)]
+            if sz <= b["chain"]:
+                m = max(1, -(-2 * ub // ITEM_HISTORIES))
+                items += [(env, idx, "C", k, m) for k in range(m)]
+    return pl, shapes, items
 
 
 STRIDE = 199
 
 
 def run(args, res):
-    pl = plan(args.tier)
-    shapes = pl["shapes"]
+    pl, shapes, items = work_items(args.tier)
     n_eval = 0
-    for idx, shape in enumerate(shapes):
-        if (idx + args.seed) % args.nshards != args.shard:
+    for i, (env, idx, seg, k, m) in enumerate(items):
+        if (i + args.seed) % args.nshards != args.shard:
             continue
         if args.over_budget():
             res.exhaustive = False
             break
-        b = Batch(shape, res)
-        res.count("shapes")
+        shape = shapes[idx]
+        b = Batch(shape, res, env)
+        res.count("work_items")
         try:
             sz = tm.size(shape)
-            stride = pl["stride"] if sz == pl["pair_strided"] else 1
-            for edits in edit_sequences(shape, sz <= pl["pair_strided"], stride, args.seed + idx):
+            bp = pl["base" if env == BASE_ENV else "new"]
+            if seg == "S":
+                if env == BASE_ENV:
+                    res.count("shapes")
+                res.count("shape_environment_combinations")
+                if env[0] == "mkdir":
+                    bm = Batch(shape, res, env, made=True)
+                    try:
+                        res.count("histories")
+                        res.count("histories_populate")
+                        if bm.populate_rc != 0:
+                            res.violate("C12.other-build-failed" + env_suffix(env),
+                                        "root made by mkdir, then filled with {%s}%s: next build exits %d: %s" % (
+                                            tm.shape_str(shape), env_text(env), bm.populate_rc, bm.populate_out[-300:]),
+                                        "C12|%s|%s|%s" % (tm.shape_str(shape), cfg_name(CFGS[0], env), POPULATE))
+                        else:
+                            for cfg, exp, reran, v0, v1 in bm.populate_results:
+                                judge_and_record(res, shape, POPULATE, cfg, exp, reran, [], v0, v1, env)
+                    finally:
+                        bm.close()
+                seqs = single_sequences(shape)
+            elif seg == "P":
+                stride = bp["stride"] if sz > bp["pair_full"] else 1
+                seqs = (p for j, p in enumerate(pair_sequences(shape, stride, args.seed + idx)) if j % m == k)
+            else:
+                seqs = ()
+            for edits in seqs:
                 if args.over_budget():
                     res.exhaustive = False
                     break
@@ -745,27 +1084,29 @@ def run(args, res):
                 res.count("histories")
                 res.count("histories_%d_edits" % len(edits))
                 if rc != 0:
-                    res.violate("C12.other-build-failed", "tree {%s}, edit %s: second build exits %d: %s" % (
-                        tm.shape_str(shape), tm.edits_str(edits), rc, out[-300:]),
-                        "C12|%s|%s|%s" % (tm.shape_str(shape), cfg_name(CFGS[0]), tm.edits_str(edits)))
+                    res.violate("C12.other-build-failed" + env_suffix(env), "tree {%s}%s, edit %s: second build exits %d: %s" % (
+                        tm.shape_str(shape), env_text(env), tm.edits_str(edits), rc, out[-300:]),
+                        "C12|%s|%s|%s" % (tm.shape_str(shape), cfg_name(CFGS[0], env), tm.edits_str(edits)))
                     continue
                 for cfg, exp, reran, v0, v1 in results:
-                    judge_and_record(res, shape, edits, cfg, exp, reran, models, v0, v1)
+                    judge_and_record(res, shape, edits, cfg, exp, reran, models, v0, v1, env)
                     n_eval += 1
                     if n_eval % STRIDE == 0:
-                        iso = run_isolated(shape, edits, cfg)
+                        iso = run_isolated(shape, edits, cfg, env)
                         res.count("builds", iso["builds"])
                         res.count("batch_cases_crosschecked_isolated")
                         if iso["expect"] != exp or iso["reran"] != reran:
                             raise HarnessError("C12: batch and isolated runs disagree on C12|%s|%s|%s: batch expect=%s "
                                                "reran=%s, isolated expect=%s reran=%s" % (
-                                                   tm.shape_str(shape), cfg_name(cfg), tm.edits_str(edits), exp, reran,
+                                                   tm.shape_str(shape), cfg_name(cfg, env), tm.edits_str(edits), exp, reran,
                                                    iso["expect"], iso["reran"]))
                 if len(edits) and len(res.samples) < 5 and res.counters.get("histories", 0) % 97 == 3:
-                    res.sample({"tree": tm.shape_str(shape), "edits": tm.edits_str(edits),
+                    res.sample({"tree": tm.shape_str(shape), "edits": tm.edits_str(edits), "environment": "%s/%s" % env,
                                 "per configuration (expect, re-executed)": {cfg_name(c): [x, r] for c, x, r, _, _ in results}})
-            if tm.size(shape) <= pl["chain"] and res.exhaustive:
-                for e1, e2 in chain_sequences(shape):
+            if seg == "C":
+                for j, (e1, e2) in enumerate(chain_sequences(shape)):
+                    if j % m != k:
+                        continue
                     if args.over_budget():
                         res.exhaustive = False
                         break
@@ -773,38 +1114,59 @@ def run(args, res):
                     res.count("histories")
                     res.count("histories_chained")
                     if rcs != (0, 0):
-                        res.violate("C12.other-build-failed", "tree {%s}, history build; %s; build; %s; build: exit codes %r: %s" % (
-                            tm.shape_str(shape), tm.edit_str(e1), tm.edit_str(e2), rcs, out[-300:]),
-                            "C12|%s|%s|%s|%s" % (tm.shape_str(shape), cfg_name(CFGS[0]), tm.edit_str(e1), tm.edit_str(e2)))
+                        res.violate("C12.other-build-failed" + env_suffix(env),
+                                    "tree {%s}%s, history build; %s; build; %s; build: exit codes %r: %s" % (
+                                        tm.shape_str(shape), env_text(env), tm.edit_str(e1), tm.edit_str(e2), rcs, out[-300:]),
+                                    "C12|%s|%s|%s|%s" % (tm.shape_str(shape), cfg_name(CFGS[0], env), tm.edit_str(e1),
+                                                         tm.edit_str(e2)))
                         continue
                     for cfg, exp2, reran2, exp3, reran3, v1, v2 in results:
-                        judge_chain(res, shape, e1, e2, cfg, exp2, reran2, exp3, reran3, m0, m1, v1, v2)
+                        judge_chain(res, shape, e1, e2, cfg, exp2, reran2, exp3, reran3, m0, m1, v1, v2, env)
                         n_eval += 1
                         if n_eval % STRIDE == 0:
-                            iso = run_isolated_chain(shape, e1, e2, cfg)
+                            iso = run_isolated_chain(shape, e1, e2, cfg, env)
                             res.count("builds", iso["builds"])
                             res.count("batch_cases_crosschecked_isolated")
                             if (iso["exp2"], iso["reran2"], iso["exp3"], iso["reran3"]) != (exp2, reran2, exp3, reran3):
                                 raise HarnessError("C12: batch and isolated chains disagree on C12|%s|%s|%s|%s" % (
-                                    tm.shape_str(shape), cfg_name(cfg), tm.edit_str(e1), tm.edit_str(e2)))
+                                    tm.shape_str(shape), cfg_name(cfg, env), tm.edit_str(e1), tm.edit_str(e2)))
         finally:
             b.close()
     res.counters["bound_depth"] = tm.MAXDEPTH
     res.counters["bound_fanout"] = 2
+    res.counters["max_checksum_only_trees_on_disk_fs"] = 1 if DISK is not None else 0
+    nsh = lambda n: len([s for s in shapes if tm.size(s) <= n])  # noqa: E731
+    B, N = pl["base"], pl["new"]
+
+    def bounds(b):
+        t = "null control and every single edit for the %d shapes of <= %d entries" % (nsh(b["single_size"]), b["single_size"])
+        if b["pair_full"] >= 0:
+            t += ", every pair of edits for shapes of <= %d entries" % b["pair_full"]
+        if b["pair_strided"] > b["pair_full"]:
+            t += ", for shapes of %d entries the pairs of one residue class modulo %d (chosen by the seed)" % (
+                b["pair_strided"], b["stride"])
+        if b["chain"] >= 0:
+            t += ", every CHAINED history build, e1, build, e2, build for shapes of <= %d entries" % b["chain"]
+        return t
+
     res.strings["rule"] = (
         "all directory contents of depth <= 2 whose per-directory name set is one of {}, {a}, {k.x}, {a,b}, {a,k.x} with every "
-        "entry a file, a symlink (to a regular file outside the tree) or a directory (%d shapes of <= %d entries in this tier) "
-        "x the null control, every single edit {add file/symlink/dir(/dir-with-file) under a free name or k.x, remove, rename, "
+        "entry a file, a symlink (to a regular file outside the tree) or a directory "
+        "x the null control, every single edit {add file/symlink/dir(/dir-with-file) under a free name (first of a, b, c not "
+        "taken: it sorts after a, between a and k.x, or before k.x) or k.x (sorts last), remove, rename, "
         "retype, content same size, content different size, mtime-only, chmod, symlink retarget; quiet (parent mtime restored) "
-        "variants of add/remove/rename/retype of names k.x and b at depth 2} at every position, and every pair of edits "
-        "(second edit enumerated on the edited tree; mirror images of unrelated edits explored once) for shapes of <= %d entries "
-        "plus, for shapes of %d entries, the pairs of one residue class modulo %d (chosen by the seed); and, for shapes of <= %d "
-        "entries, every CHAINED history build, e1, build, e2, build (judged at the last build against the tree as it was at "
-        "the second) "
-        "x {directory-tree, directory-structure} x {no filter, content-exclusion-patterns [*.x], [b]}; history = build, edit(s), "
-        "build (chained: one more edit and build) in new llbuild processes; evaluations = (tree, edits, configuration) cases observed; distinct_nontrivial = "
-        "those with >= 1 edit on which the reference asserts a verdict (not_asserted = the rest)" % (
-            len(shapes), pl["single_size"], pl["pair_full"], pl["pair_strided"], pl["stride"], pl["chain"]))
+        "variants of add/remove/rename/retype of names k.x and b at depth 2} at every position, pairs of edits "
+        "(second edit enumerated on the edited tree; mirror images of unrelated edits explored once) and CHAINED histories "
+        "(judged at the last build against the tree as it was at the second) "
+        "x {directory-tree, directory-structure} x {no filter, content-exclusion-patterns [*.x], [b]} "
+        "x environment {root is a source directory, root is the output of a mkdir command of the description (tree in place "
+        "before the first build; plus the case `populate`: build -- the command makes the empty root --, the driver fills it "
+        "with the shape, build -- judged)} x {client file-system default, "
+        "device-agnostic, checksum-only (trees on a disk file system whose directory size does not count entries)}.  "
+        "Bounds of this tier -- environment src/default: " + bounds(B) + "; each of the 5 other environments: " + bounds(N) +
+        ".  history = build, edit(s), build (chained: one more edit and build) in new llbuild processes; evaluations = (tree, "
+        "edits, configuration, environment) cases observed; distinct_nontrivial = those with >= 1 edit on which the reference "
+        "asserts a verdict (not_asserted = the rest)")
     res.assumptions += [
         "exclusion patterns are fnmatch(3) patterns applied to the basename of every entry at every depth and an excluded "
         "directory hides everything beneath it (BuildSystem.cpp FilteredDirectoryContentsTask::getFilteredContents; the "
@@ -813,7 +1175,13 @@ def run(args, res):
         "to directories are not in the space",
         "not asserted: cases where only a directory's own metadata (mtime, size) differs (tree inputs); compound edits that "
         "restore names and types, and directory mtime (structure inputs); chmod (llbuild's FileInfo equality leaves the mode "
-        "out by design, DESIGN section 7); quiet edits of visible names",
+        "out by design, DESIGN section 7); quiet edits of visible names; in checksum-only mode cases whose only visible "
+        "difference is a file's mtime (C13: a pure timestamp change is not detected there)",
+        "no edit replaces an inode while keeping type, content and mtime, so device-agnostic mode has the same reference as "
+        "the default mode",
+        "only the tree root is ever the output of a mkdir command; sub-directories are never produced by commands",
+        "in the added environments a chained history makes no claim about its last build when the second build missed its "
+        "own edit (that miss is reported by the single-edit case)",
         "batch execution shares the first build of a shape among all its edit sequences by restoring database, tree and outputs "
         "exactly (lstat fingerprint verified after every undo); every violation and every %d-th case is re-run in isolation "
         "(fresh sandbox, one tree, one command) and must agree" % STRIDE,
@@ -824,22 +1192,30 @@ def run(args, res):
 def replay(spec, res):
     parts = spec.split("|")
     shape = tm.parse_shape(parts[1])
-    cfg = parse_cfg(parts[2])
+    cfg, env = parse_cfg(parts[2])
+    if parts[3] == POPULATE:
+        iso = run_isolated(shape, POPULATE, cfg, env, verbose=True)
+        res.count("builds", iso["builds"])
+        if iso["rc2"] != 0:
+            res.violate("C12.other-build-failed" + env_suffix(env), "build after populating exits %d" % iso["rc2"], spec)
+            return
+        judge_and_record(res, shape, POPULATE, cfg, iso["expect"], iso["reran"], [], iso["v0"], iso["v1"], env, confirm=False)
+        return
     edits = tm.parse_edits(parts[3])
     if len(parts) > 4:
         e1, e2 = edits[0], tm.parse_edit(parts[4])
-        iso = run_isolated_chain(shape, e1, e2, cfg, verbose=True)
+        iso = run_isolated_chain(shape, e1, e2, cfg, env, verbose=True)
         res.count("builds", iso["builds"])
         if iso["rc"] != (0, 0):
-            res.violate("C12.other-build-failed", "builds exit %r" % (iso["rc"],), spec)
+            res.violate("C12.other-build-failed" + env_suffix(env), "builds exit %r" % (iso["rc"],), spec)
             return
         judge_chain(res, shape, e1, e2, cfg, iso["exp2"], iso["reran2"], iso["exp3"], iso["reran3"], iso["m0"], iso["m1"],
-                    iso["v1"], iso["v2"], confirm=False)
+                    iso["v1"], iso["v2"], env, confirm=False)
         return
-    iso = run_isolated(shape, edits, cfg, verbose=True)
+    iso = run_isolated(shape, edits, cfg, env, verbose=True)
     res.count("builds", iso["builds"])
     models = models_for(shape, edits)
     if iso["rc2"] != 0:
-        res.violate("C12.other-build-failed", "second build exits %d" % iso["rc2"], spec)
+        res.violate("C12.other-build-failed" + env_suffix(env), "second build exits %d" % iso["rc2"], spec)
         return
-    judge_and_record(res, shape, edits, cfg, iso["expect"], iso["reran"], models, iso["v0"], iso["v1"], confirm=False)
+    judge_and_record(res, shape, edits, cfg, iso["expect"], iso["reran"], models, iso["v0"], iso["v1"], env, confirm=False)
